@@ -176,6 +176,20 @@ def register(M, h):
         v.tz = tz
         return v
 
+    @ext('pandas.to_timedelta', 'pandas.TimedeltaIndex')
+    def _to_timedelta(interp, args, kw, node):
+        src = as_vec(interp, args[0], node)
+        if src is None:
+            raise AnalysisError('pd.to_timedelta argument not modelled', node)
+        unit = kw.get('unit')
+        if src.dtype == 'm8':
+            els = [El(e.d, False) for e in src.els()]
+        elif src.dtype in ('f8', 'i8') and unit in ('s', 'S', 'sec', 'seconds'):
+            els = [El(num_of_el(e.d), False) for e in src.els()]
+        else:
+            raise AnalysisError('pd.to_timedelta of this dtype / unit not modelled', node)
+        return Vec.fresh(els, kind='index', dtype='m8', unit='ns')
+
     @ext('pandas.Index')
     def _index(interp, args, kw, node):
         src = kwarg(args, kw, 0, 'data')
